@@ -226,6 +226,17 @@ func c11Purity(p *Program, r *Report, tn *types.TypeName, to, from *types.Func) 
 			if strings.HasPrefix(name, "github.com/datastax/go-cassandra-native-protocol/datacodec.") {
 				continue
 			}
+			// functions of side-effect-free value packages change representation only; what they
+			// compute is outside the static claim (listed in the evidence)
+			pure := false
+			for _, pk := range []string{"strconv.", "math/big.", "(*math/big.", "(math/big.", "net.", "(net.", "(*net.", "time.", "(time.", "(*time.", "strings.", "unicode/utf8.", "math.", "encoding/hex.", "(*github.com/datastax/go-cassandra-native-protocol/primitive.", "(github.com/datastax/go-cassandra-native-protocol/primitive.", "github.com/datastax/go-cassandra-native-protocol/primitive."} {
+				if strings.HasPrefix(name, pk) {
+					pure = true
+				}
+			}
+			if pure {
+				continue
+			}
 			return fmt.Sprintf("applies %s, which is neither a conversion helper of package datacodec nor a listed change of representation", name)
 		}
 		return ""
